@@ -148,7 +148,8 @@ class Runner18(lib.Runner):
     # -- what a call has to leave in the table (decided BEFORE the call, from the shadow)
     def plan(self, spec):
         """-> (arguments, effect): effect = None or {"present": [labels], "absent": [ids],
-        "first": label | None (several statement blocks: the first block's row)}"""
+        "first": label | None (the row of the first upsert of a list; kept for replays, the statement
+        is about every row of the call since the call-level reading of the property)}"""
         E, name = self.Event, spec[0]
         if name not in lib.EVENT_WRITE_CALLS and name != "insert_many_bad":
             return None, None
@@ -173,7 +174,7 @@ class Runner18(lib.Runner):
             first = None
             if ups and ups[0][0] in ids and last.get(ups[0][0]) == ups[0][1]:
                 first = ups[0][1]
-            return evs, {"present": present, "absent": [], "first": first, "blocks": len(ups) + 1}
+            return evs, {"present": present, "absent": [], "first": first, "blocks": 1, "statements": len(ups) + 1}
         if name == "replace":
             n = self.fresh()
             return lib._ev(E, n), ({"present": [n], "absent": [], "first": None} if spec[2] in ids else None)
@@ -484,7 +485,9 @@ def effect_violations(r):
         if not eff or c["outcome"] is not None or c["t_start"] - F_start <= lib.MAX_AGE:
             continue
         age = (c["t_start"] - F_start) / lib.S
-        if eff["blocks"] == 1 and (eff["missing"] or eff["still"]):
+        # every event write is ONE call, whatever the number of statements it takes (a list with
+        # id-carrying events: one UPDATE each + the bulk INSERT): all it had to leave must be there
+        if eff["missing"] or eff["still"]:
             what = []
             if eff["missing"]:
                 what.append(f"{len(eff['missing'])} of its {eff['n_expected']} rows (labels {eff['missing'][:3]}) are not in the file")
@@ -492,9 +495,6 @@ def effect_violations(r):
                 what.append(f"the deleted ids {eff['still'][:3]} are still in the file")
             out.append((SIG_OLD, f"call #{ci} {c['spec']} ({c.get('layer')} layer) issued {age:.6f} s after the last instant at "
                                  f"which nothing was pending has returned, and through a second connection " + "; ".join(what)))
-        elif eff["blocks"] > 1 and eff["first_missing"]:
-            out.append((SIG_OLD, f"call #{ci} {c['spec']} ({c.get('layer')} layer): the row of its first upsert, issued {age:.6f} s "
-                                 f"after the last flush, is not in the file when the call returns"))
     return out
 
 
@@ -698,7 +698,9 @@ def big_writes_run(sq, Event, layer, n=BIG_N):
                  (4 * lib.S, "insert of one event (young: may stay buffered)", lambda: ins_one(evs(1)[0]), None),
                  (10 * lib.S + 1, "replace_last", lambda: rep_last(evs(1)[0]), 1),
                  (DAY_US + 3 * lib.S, "insert of a list of %d events" % (n + 4999), lambda: ins_many(evs(n + 4999)), n + 4999),
-                 (10_600_000, "insert of a list of 2 events with ids and %d without" % n, lambda: ins_many(evs(n, (2, 3))), 1)]
+                 (10_600_000, "insert of a list of 2 events with ids and %d without" % n, lambda: ins_many(evs(n, (2, 3))), n + 2),
+                 (3 * lib.S, "insert of one event (young: may stay buffered)", lambda: ins_one(evs(1)[0]), None),
+                 (11 * lib.S, "insert of a list of 3 events with ids and none without", lambda: ins_many(evs(0, (1, 2, 3))), 3)]
         for gap, what, thunk, must in steps:
             clock.now += gap
             lo = k[0]
